@@ -54,6 +54,39 @@ pub fn expand_key(key: &[u8; 128], t: usize, t1: usize) -> [u16; 64] {
     k
 }
 
+/// The same key expansion with every loop running over the fixed index range 0..127 and the RFC's loop bounds turned
+/// into conditions on the index (all writes at constant positions; used where T and T1 are symbolic).
+pub fn expand_key_g(key: &[u8; 128], t: usize, t1: usize) -> [u16; 64] {
+    let t8 = (t1 + 7) / 8;
+    let tm = (255u32 % (1u32 << (8 + t1 - 8 * t8))) as u8;
+    let mut l = [0u8; 128];
+    let mut i = 0;
+    while i < 128 {
+        if i < t {
+            l[i] = key[i];
+        } else {
+            l[i] = PITABLE[(l[i - 1].wrapping_add(l[i - t])) as usize];
+        }
+        i += 1;
+    }
+    l[128 - t8] = PITABLE[(l[128 - t8] & tm) as usize];
+    let mut n = 0;
+    while n < 128 {
+        let i = 127 - n;
+        if i + t8 <= 127 {
+            l[i] = PITABLE[(l[i + 1] ^ l[i + t8]) as usize];
+        }
+        n += 1;
+    }
+    let mut k = [0u16; 64];
+    i = 0;
+    while i < 64 {
+        k[i] = (l[2 * i] as u16) + 256 * (l[2 * i + 1] as u16);
+        i += 1;
+    }
+    k
+}
+
 const S: [u32; 4] = [1, 2, 3, 5];
 
 /// Mix up R[i]: R[i] = R[i] + K[j] + (R[i-1] & R[i-2]) + ((~R[i-1]) & R[i-3]); j = j + 1; R[i] = R[i] rol s[i]
